@@ -1,4 +1,5 @@
 pub mod cal;
 pub mod fmt;
 pub mod inst;
+pub mod rfc2822;
 pub mod rfc3339;
